@@ -330,6 +330,50 @@ static void run_pure_xor_exhaustive(void)
     }
 }
 
+/* ---- fragments of ANOTHER stripe layout of the same object in the list: an instance of the same backend with a smaller k
+ * wrote them, so they are genuine, sealed fragments with a LARGER payload than this stripe's.  Every fragment sits in a
+ * read-only mapping pinned against an inaccessible page, the stripe's own ones exactly fragment_len long (the foreign one as
+ * long as it really is, i.e. longer): whatever decode / reconstruct answer, they read no byte behind fragment_len of any
+ * fragment and modify none. ---- */
+static void run_foreign_layout(void)
+{
+    static const int shp[][4] = { {2, 1, 4, 2}, {3, 2, 6, 3}, {1, 1, 4, 2}, {5, 5, 10, 5}, {6, 6, 12, 6} };
+    static const int bes[] = { EC_BACKEND_LIBERASURECODE_RS_VAND, EC_BACKEND_FLAT_XOR_HD, EC_BACKEND_ISA_L_RS_VAND, EC_BACKEND_JERASURE_RS_VAND };
+    for (size_t bi = 0; bi < 4; bi++) for (size_t si = 0; si < 5; si++) for (int pos = 0; pos < 3; pos++) for (int force = 0; force < 2; force++) {
+        int be = bes[bi]; if (!liberasurecode_backend_available((ec_backend_id_t)be)) continue;
+        if ((be == EC_BACKEND_FLAT_XOR_HD) != (si >= 3)) continue;
+        if (!mon_case("%s|foreign-layout-fragment|writer=(%d,%d)|reader=(%d,%d)|pos=%d|force=%d", be_name(be), shp[si][0], shp[si][1], shp[si][2], shp[si][3], pos, force)) continue;
+        int xhd = si == 3 ? 3 : 4;
+        cfg_t ca = { be, shp[si][0], shp[si][1], be == EC_BACKEND_FLAT_XOR_HD ? xhd : shp[si][1], 0, CHKSUM_CRC32 }, cb = { be, shp[si][2], shp[si][3], be == EC_BACKEND_FLAT_XOR_HD ? xhd : shp[si][3], 0, CHKSUM_CRC32 };
+        uint64_t len = 4096; uint8_t *src = malloc(len); rng_t r; rng_seed(&r, MO.seed, 6100 + bi * 8 + si); rng_fill(&r, src, len);
+        int da = lec_create(&ca), db = lec_create(&cb); stripe_t A, B; int okA = 0, okB = 0;
+        if (da > 0 && db > 0) { cfg_use(&ca); okA = stripe_make(&A, da, &ca, src, len) == 0; cfg_use(&cb); okB = stripe_make(&B, db, &cb, src, len) == 0; }
+        if (!okA || !okB || A.flen <= B.flen) { mon_viol("C15", "setup-failed", "create/encode failed (%d %d) or the writer's fragments are not longer", da, db); }
+        else {
+            /* the reader's data fragments; index 0 comes from the writer's layout */
+            char *lst[40]; uint8_t *g[40]; const uint8_t *orig[40]; uint64_t gl[40]; int cnt = 0;
+            for (int i = 0; i < cb.k + 1 && i < B.n; i++) { orig[cnt] = i == 0 ? A.frag[0] : B.frag[i]; gl[cnt] = i == 0 ? A.flen : B.flen; g[cnt] = g_alloc(gl[cnt], G_END); memcpy(g[cnt], orig[cnt], gl[cnt]); g_ro(g[cnt]); lst[cnt] = (char *)g[cnt]; cnt++; }
+            if (pos == 1) { char *t = lst[0]; lst[0] = lst[cnt - 1]; lst[cnt - 1] = t; } else if (pos == 2) { char *t = lst[0]; lst[0] = lst[cnt / 2]; lst[cnt / 2] = t; }
+            char *out = NULL; uint64_t ol = 0;
+            int rc = liberasurecode_decode(db, lst, cnt - 1 + (pos == 1), B.flen, force, &out, &ol);     /* (with and without the k+1st entry) */
+            mon_count("evaluations", 3); mon_count("foreign_layout_lists", 1);
+            if (rc == 0) liberasurecode_decode_cleanup(db, out); else if (rc > 0) mon_viol("C15", "positive-rc", "decode returned %d", rc);
+            rc = liberasurecode_decode(db, lst, cnt, B.flen, force, &out, &ol);
+            if (rc == 0) liberasurecode_decode_cleanup(db, out);
+            uint8_t *of = malloc(B.flen); rc = liberasurecode_reconstruct_fragment(db, lst, cnt, B.flen, B.n - 1, (char *)of);
+            if (rc > 0) mon_viol("C15", "positive-rc", "reconstruct returned %d", rc);
+            free(of);
+            for (int i = 0; i < cnt; i++) if (memcmp(g[i], orig[i], gl[i])) { mon_viol("C15", "input-fragment-modified", "fragment at list position %d changed", i); break; }
+            for (int i = 0; i < cnt; i++) g_free(g[i]);
+        }
+        if (okA) { A.data = NULL; stripe_free(&A); } if (okB) { B.data = NULL; stripe_free(&B); }
+        if (da > 0) liberasurecode_instance_destroy(da); if (db > 0) liberasurecode_instance_destroy(db);
+        free(src);
+        mon_distinct("nontrivial", mon_hash_u64((uint64_t)(bi * 64 + si * 8) + (uint64_t)(pos * 2 + force), 75));
+        mon_end();
+    }
+}
+
 /* ---- threads: the same (config, data) encoded on 8 threads gives the reference bytes ---- */
 typedef struct { cfg_t c; int desc; const uint8_t *src; uint64_t len; int iters; int bad; uint8_t **exp; uint64_t ef; } targ_t;
 static void *tmain(void *a)
@@ -379,7 +423,7 @@ int main(int argc, char **argv)
     mon_init(argc, argv);
     LEC_PROP = MO.prop;
     isal_ok = liberasurecode_backend_available(EC_BACKEND_ISA_L_RS_VAND);
-    if (!strcmp(MO.mode, "threads")) run_threads(); else { run_pure(); run_pure_xor_exhaustive(); }
+    if (!strcmp(MO.mode, "threads")) run_threads(); else { run_pure(); run_pure_xor_exhaustive(); run_foreign_layout(); }
     mon_finish();
     return 0;
 }
